@@ -82,13 +82,6 @@ def run(ctx):
     except Exception:
         import traceback
         ctx.mark_broken('harness-exception', traceback.format_exc()[-2000:])
-    # runner.finish() stays silent about broken correspondences once a known finding was hit; the ones that the
-    # known finding does not explain must still be reported
-    unexplained = [(n_, d_) for n_, d_ in ctx.broken if 'explained by known finding' not in n_]
-    if unexplained and ctx.known_hits and not any(v['found_input'] for v in ctx.violations):
-        ctx.violation('broken:' + ';'.join(sorted({n_ for n_, _ in unexplained})),
-                      'obligation or correspondence no longer checks; no failing input found',
-                      dict(kind='broken', broken=[{'name': n_, 'detail': d_} for n_, d_ in unexplained]), found_input=False)
 
 
 def digits_stream(ctx, cirq, n):
@@ -561,7 +554,9 @@ def views_stream(ctx, cirq, n, shard=0):
             if name == 'hist' and R[name][idx][4] is not None:
                 arr, bl = R[name][idx][4]
                 if any(_impl_digits_to_int(cirq, arr[r_, 0], bl) != _impl_digits_to_int(cirq, [int(x) for x in arr[r_, 0]], bl) for r_ in range(arr.shape[0])):
-                    label += '[explained by known finding digits:digits_to_int:numpy-digits]'
+                    # the known finding digits:digits_to_int:numpy-digits (reported through ctx.violation above) explains this row
+                    ctx.cov['model_disagreements_explained_by_known_finding'] = ctx.cov.get('model_disagreements_explained_by_known_finding', 0) + 1
+                    continue
             ctx.mark_broken(label, f'model and implementation differ on {str(R[name][idx][:4])[:1500]}')
 
 
